@@ -11,6 +11,11 @@
 (*   sub1    Region1D front / trailing sub-regions                         *)
 (*   sub2    Region2D parallel / serial front / trailing sub-regions       *)
 (*   ctor    Region1D / Region2D validation                                *)
+(*   hist    a history of Layout2D objects: built (plainly or through      *)
+(*           rotated_from_roe_corner), then new_rotated_from /             *)
+(*           layout_extracted_from steps; the record carries the whole     *)
+(*           history and what was observed after its LAST step (every      *)
+(*           prefix of a history is a record of its own)                   *)
 (* Arrays are recorded as rows of source tags (cell of the original frame, *)
 (* -2 = not a known tag); "no region" / "raised" as the empty tuple.       *)
 (* Verdicts are total: every record is judged, a rejected record is        *)
@@ -95,6 +100,39 @@ ClausesCtor(r) ==
        Cl("valid-region-accepted", (IF r.dim = 1 THEN Valid1(r.r) ELSE Valid2(r.r)) => ~ r.raised),
        Cl("accepted-region-keeps-coordinates", ~ r.raised => r.kept = r.r) >>
 
+\* ---- layout histories -----------------------------------------------------
+\* r.regs: the three slots given to the constructor; r.steps: [op, c, e] records; observed after the last step:
+\* r.out (the three slots), r.arr (the array taken through the same history with layout_util / Region2D.slice),
+\* r.cont (what every slot slices from that array, << >> for an absent slot)
+HistWellFormed(r) == Len(r.regs) = 3 /\ Len(r.steps) >= 1 /\ r.steps[1].op \in {"build", "buildrot"}
+                     /\ \A k \in 2 .. Len(r.steps) : r.steps[k].op \in {"rot", "ext"}
+HistRun(r, stale) == RunHist(<< r.h, r.w >>, r.regs, r.steps, stale)
+ClausesHist(r) ==
+    IF ~ HistWellFormed(r) THEN << Cl("layout-history-malformed", FALSE) >>
+    ELSE LET L == HistRun(r, FALSE)
+         IN << Cl("layout-history-regions", Len(r.out) = 3 /\ \A k \in 1 .. 3 : r.out[k] = L.regs[k]),
+               Cl("layout-history-array", r.arr = L.arr),
+               Cl("layout-history-regions-index-array",
+                  Len(r.cont) = 3 /\ \A k \in 1 .. 3 :
+                      r.cont[k] = IF L.regs[k] = Absent THEN << >> ELSE Slice(L.arr, L.regs[k])) >>
+WantHist(r) == IF ~ HistWellFormed(r) THEN << >>
+               ELSE LET L == HistRun(r, FALSE) IN [regs |-> L.regs, sh |-> L.sh]
+\* input class of a failing history.  A history whose observation is exactly what the code-shaped formulation
+\* (extraction keeps the old shape_2d) predicts, and differs from the specification only for that reason, is
+\* classified as such; anything else by its last two steps.
+HistSig(r) ==
+    IF ~ HistWellFormed(r) THEN "hist:malformed"
+    ELSE LET L  == HistRun(r, FALSE)
+             Ls == HistRun(r, TRUE)
+             n  == Len(r.steps)
+         IN IF /\ \E k \in 1 .. 3 : Ls.regs[k] # L.regs[k]
+               /\ Len(r.out) = 3 /\ \A k \in 1 .. 3 : r.out[k] = Ls.regs[k]
+               /\ r.arr = L.arr
+            THEN "hist:rotate-after-extract:stale-shape_2d"
+            ELSE "hist:" \o (IF n >= 2 THEN r.steps[n-1].op \o "-" ELSE "") \o r.steps[n].op \o
+                 (IF n >= 2 /\ IsRotStep(r.steps[n]) /\ IsRotStep(r.steps[n-1])
+                  THEN (IF r.steps[n].c = r.steps[n-1].c THEN ":same-corner" ELSE ":mixed-corners") ELSE "")
+
 Clauses(r) ==
     CASE r.api = "rot" -> ClausesRot(r)
       [] r.api = "slices" -> ClausesSlices(r)
@@ -103,6 +141,7 @@ Clauses(r) ==
       [] r.api = "sub1" -> ClausesSub1(r)
       [] r.api = "sub2" -> ClausesSub2(r)
       [] r.api = "ctor" -> ClausesCtor(r)
+      [] r.api = "hist" -> ClausesHist(r)
       [] OTHER -> << Cl("unknown-api", FALSE) >>
 
 Want(r) ==
@@ -113,6 +152,7 @@ Want(r) ==
       [] r.api = "sub1" -> [out |-> Sub1(ModeOf(r.m), r.r, r.px)]
       [] r.api = "sub2" -> [out |-> Sub2(r.m, r.r, r.px)]
       [] r.api = "ctor" -> [rejected |-> IF r.dim = 1 THEN Invalid1(r.r) ELSE Invalid2(r.r)]
+      [] r.api = "hist" -> WantHist(r)
       [] OTHER -> << >>
 
 \* signature of the failing input class (used to match known findings)
@@ -126,12 +166,13 @@ Sig(r) ==
                            IvClass(<< r.o[3], r.o[4] >>, << r.e[3], r.e[4] >>)
       [] r.api \in {"sub1", "sub2"} -> r.api \o ":" \o r.m \o (IF Len(r.px) = 2 /\ r.px[1] >= r.px[2] THEN ":empty-range" ELSE "")
       [] r.api = "ctor" -> "ctor" \o ToString(r.dim) \o ":" \o CtorClass(r)
+      [] r.api = "hist" -> HistSig(r)
       [] OTHER -> r.api
 
 Failed(r) == SelectSeq(Clauses(r), LAMBDA c : ~ c.ok)
 
 TraceInit == /\ i = 1
-             /\ kind = "trace" /\ inp = Blank /\ phase = "trace" /\ obs = << >>
+             /\ kind = "trace" /\ inp = Blank /\ phase = "trace" /\ obs = << >> /\ hist = << >> /\ lay = << >>
 
 TraceNext ==
     /\ i <= Len(Trace)
